@@ -27,6 +27,10 @@ pub struct Report {
     pub budget_s: f64,
     pub out: Option<String>,
     pub max_samples: usize,
+    /// the PROD unit being evaluated (recorded with every violation so that it can be re-executed alone)
+    pub cur_unit: std::cell::Cell<u64>,
+    /// replay mode: only this unit is evaluated
+    pub only_unit: Option<u64>,
 }
 
 impl Report {
@@ -48,13 +52,34 @@ impl Report {
             budget_s,
             out,
             max_samples: 6,
+            cur_unit: std::cell::Cell::new(u64::MAX),
+            only_unit: None,
         }
     }
 
-    /// true if index `i` of a PROD enumeration belongs to this shard
+    /// true if index `i` of a PROD enumeration belongs to this shard (replay mode: if it is the recorded unit)
     #[inline]
     pub fn mine(&self, i: u64) -> bool {
-        (i % self.nshards as u64) as usize == self.shard
+        let m = match self.only_unit {
+            Some(u) => i == u,
+            None => (i % self.nshards as u64) as usize == self.shard,
+        };
+        if m {
+            self.cur_unit.set(i);
+        }
+        m
+    }
+
+    /// Units that are not part of an indexed enumeration (evaluated once, by shard 0); `tag` >= 1 << 62.
+    pub fn mine0(&self, tag: u64) -> bool {
+        let m = match self.only_unit {
+            Some(u) => u == tag,
+            None => self.shard == 0,
+        };
+        if m {
+            self.cur_unit.set(tag);
+        }
+        m
     }
 
     #[inline]
@@ -103,7 +128,13 @@ impl Report {
                 Viol {
                     count: 1,
                     what: what.to_string(),
-                    case: case(),
+                    case: {
+                        let mut c = case();
+                        if let Some(o) = c.as_object_mut() {
+                            o.insert("unit".into(), json!(self.cur_unit.get()));
+                        }
+                        c
+                    },
                 },
             );
         }
